@@ -814,6 +814,13 @@ func c13RunAll(c *ctx, perturbed bool, n int) {
 
 func genC13RelayInner(c *ctx) {
 	c.sample = []string{}
+	if os.Getenv("C13_SCHED") == "1" { // pass 3: schedules found on the model, replayed (c13_reset.go)
+		if c13VlDump == nil || c13VlSchedule == nil || os.Getenv("VERIF_VL") != "1" {
+			panic("c13: C13_SCHED=1 needs the logging overlay build and VERIF_VL=1")
+		}
+		c13SchedAll(c, os.Getenv("C13_PERTURBED") == "1")
+		return
+	}
 	n := c.pick(800, 8000)
 	if os.Getenv("VERIF_VL") == "1" {
 		if c13VlDump == nil {
@@ -839,6 +846,10 @@ func genC13Relay(c *ctx) {
 		c13Sequential(c, i)
 	}
 	c13RunAll(c, false, c.pick(400, 4000))
+	// the reset guard, direct scenario: a stale reset request behind a slow server (c13_reset.go)
+	for k, n := 0, c.pick(8, 48); k < n; k++ {
+		c13LateResetPlain(c, k, k%4, (k/4)%2 == 1, 5*time.Millisecond)
+	}
 	if c.sample == nil { // no model evaluations in this group: describe the runs instead
 		c.sample = []string{"scripted relay runs judged by the direct conservation oracle (see input_distribution: plain:* and perturbed:*)"}
 	}
@@ -892,11 +903,29 @@ func genC13Relay(c *ctx) {
 	}
 	// pass 1: schedule perturbation only (yield/sleep points, no logging, no extra
 	// synchronisation); pass 2: perturbation + trace logging, every run replayed on the model
-	for pass, env := range [][]string{{"C13_PERTURBED=1"}, {"C13_PERTURBED=1", "VERIF_VL=1"}} {
+	// pass 3: the schedules the model needs the reset guard for, replayed through the scripted
+	// scheduler of the overlay (c13_reset.go)
+	drv := "C13_DRIVER=" + filepath.Join(filepath.Dir(goDir), "ocaml", "driver")
+	for pass, env := range [][]string{{"C13_PERTURBED=1"}, {"C13_PERTURBED=1", "VERIF_VL=1"}, {"C13_PERTURBED=1", "VERIF_VL=1", "C13_SCHED=1", drv}} {
 		cases, stats := filepath.Join(tmp, fmt.Sprintf("cases%d", pass)), filepath.Join(tmp, fmt.Sprintf("stats%d", pass))
 		vpSeed := c.rng.Int63()
-		run(tmp, append(env, fmt.Sprintf("VERIF_VP_SEED=%d", vpSeed), "VERIF_VP_COUNT_FILE="+filepath.Join(tmp, "vpcount")), filepath.Join(tmp, "corr_overlay"),
-			"relay_inner", fmt.Sprint(vpSeed%1000000007), c.tier, cases, stats)
+		// the relay under test may panic (a worker flushing into a channel the readers have
+		// closed): that ends the inner process; it is reported, the other passes still run
+		inner := exec.Command(filepath.Join(tmp, "corr_overlay"), "relay_inner", fmt.Sprint(vpSeed%1000000007), c.tier, cases, stats)
+		inner.Dir = tmp
+		inner.Env = append(append(os.Environ(), env...), fmt.Sprintf("VERIF_VP_SEED=%d", vpSeed), "VERIF_VP_COUNT_FILE="+filepath.Join(tmp, "vpcount"))
+		if out, err := inner.CombinedOutput(); err != nil {
+			txt := string(out)
+			if i := strings.Index(txt, "panic:"); i >= 0 {
+				txt = txt[i:]
+			}
+			if len(txt) > 1500 {
+				txt = txt[:1500]
+			}
+			c.violate(fmt.Sprintf("relay-inner-crash-pass%d", pass+1), "the overlay build of the relay harness died in pass "+fmt.Sprint(pass+1)+" (the relay panicked or the harness failed): "+err.Error(),
+				txt+fmt.Sprintf(" | VERIF_VP_SEED=%d", vpSeed))
+			continue
+		}
 		js, err := os.ReadFile(stats)
 		if err != nil {
 			panic(err)
@@ -927,7 +956,7 @@ func genC13Relay(c *ctx) {
 		for _, v := range st.Violations {
 			c.violate(v["key"], v["what"], v["detail"]+fmt.Sprintf(" | VERIF_VP_SEED=%d", vpSeed))
 		}
-		if st.Distribution["vp:points_hit"] == 0 {
+		if pass < 2 && st.Distribution["vp:points_hit"] == 0 {
 			c.violate("relay-overlay-inert", "the overlay build executed no perturbation point: schedule perturbation did not run", "")
 		}
 		// the model lines of the inner run become cases of this group; its other executions
